@@ -53,6 +53,17 @@ CORPUS_REFS = [
      "probes": [{"group": ["m"], "var": "q0", "attr": "coordinates", "pattr": [["x", None]]}]},
 ]
 
+# F11b: names for which the flattened names collide (valid netCDF files)
+CORPUS_COLLIDE = [
+    {"tree": {"name": "", "dims": [["x", 3]], "vars": [{"name": "a__b", "dims": ["x"]}, {"name": "q0", "dims": []}], "subs": [
+        {"name": "a", "dims": [], "vars": [{"name": "b", "dims": ["x"]}], "subs": []}]},
+     "probes": [{"group": [], "var": "q0", "attr": "ancillary_variables", "pattr": [["a__b", None]]}]},
+    {"tree": {"name": "", "dims": [["x", 3]], "vars": [{"name": "q0", "dims": []}], "subs": [
+        {"name": "a_", "dims": [], "vars": [{"name": "b", "dims": ["x"]}], "subs": []},
+        {"name": "a", "dims": [], "vars": [{"name": "_b", "dims": ["x"]}], "subs": []}]},
+     "probes": [{"group": [], "var": "q0", "attr": "ancillary_variables", "pattr": [["/a/_b", None]]}]},
+]
+
 CORPUS_COORD = [
     # F11c: dimension in a non-root group, coordinate variable in a sub-group
     {"D": ["g"], "F": ["g", "h"], "cands": [["g", "h"]], "shadow": []},
@@ -445,7 +456,9 @@ def ext(rng, chain, lo, hi=3, side_ok=True):
     k = rng.randint(lo, hi)
     p = chain[:k]
     if side_ok and rng.random() < 0.2 and len(p) < 3:
-        p = p + ["side"]
+        # a sibling of the next group of the chain whose name extends that group's name, so that
+        # a comparison of path strings that forgets the component boundary would be wrong
+        p = p + [chain[len(p)] + "b"]
     return p
 
 
@@ -653,11 +666,11 @@ def run(chk, model_ok):
         t_stage[0] = time.time()
 
     # ======================================================= 1. references through the flattener
-    ref_cases = [json.loads(json.dumps(c)) for c in CORPUS_REFS]
+    ref_cases = [json.loads(json.dumps(c)) for c in CORPUS_REFS + CORPUS_COLLIDE]
     for c in ref_cases:
         for pr in c["probes"]:
             pr.setdefault("coords", None)
-    for _ in range(0 if only not in ('', 'refs') else 110 if quick else 1200):
+    for _ in range(0 if only not in ('', 'refs') else 75 if quick else 500):
         t = rand_tree(rng)
         probes = [rand_probe(rng, t, k) for k in range(rng.choice([6, 8, 10]))]
         ref_cases.append({"tree": t, "probes": probes})
@@ -681,6 +694,16 @@ def run(chk, model_ok):
             continue
         T = Tree(r["tree"])
         tlit = gtree(r["tree"])
+        # distinct elements whose flattened names would coincide (outside the injectivity guard)
+        flat_v = [flat_of(p_, v_) for p_, g_ in T.groups.items() for v_ in g_["vars"]]
+        flat_d = [flat_of(p_, d_) for p_, g_ in T.groups.items() for d_ in g_["dims"]]
+        if len(set(flat_v)) < len(flat_v) or len(set(flat_d)) < len(flat_d):
+            bump("refs:colliding-flat-names")
+            if any("exc" in ob["lax"] for ob in r["probes"]) or "varmap" not in r:
+                chk.fail("property", "flat-name-collision",
+                         "a valid grouped dataset whose flattened names coincide cannot be flattened: "
+                         + str(r["probes"][0]["lax"]), {"input": c["tree"], "observed": r["probes"][0]})
+            continue
         # flat names must be distinct (injectivity) and the maps must be the traversal
         if "varmap" in r:
             vm = [x.split(": ") for x in r["varmap"]]
@@ -750,8 +773,10 @@ def run(chk, model_ok):
     lap("refs-check")
     # ======================================================= 2. the reader's coordinate-variable search
     coord_cases = [dict(c) for c in CORPUS_COORD]
-    for _ in range(0 if only not in ('', 'coord') else 90 if quick else 900):
+    for _ in range(0 if only not in ('', 'coord') else 70 if quick else 400):
         coord_cases.append(coord_case(rng))
+    for j, c in enumerate(coord_cases):
+        c["i"] = j
     payload = [{"tree": coord_tree(c), "field": [c["F"], "ta"]} for c in coord_cases]
     rows, crashed = run_family("coord", payload, scratch)
     crash("coord", crashed)
@@ -878,11 +903,13 @@ def run(chk, model_ok):
 
 def run_fields(chk, model_ok, rng, quick, scratch, bump, distinct, stats):
     cases = []
-    for _ in range(0 if os.environ.get('C11_ONLY', '') not in ('', 'fields') else 110 if quick else 1300):
+    for _ in range(0 if os.environ.get('C11_ONLY', '') not in ('', 'fields') else 90 if quick else 500):
         spec = field_spec(rng)
         cases.append({"spec": spec})
-    ex_cases = []
-    for _ in range(0 if os.environ.get('C11_ONLY', '') not in ('', 'fields', 'examples') else 21 if quick else 240):
+    # corpus first: F11g (parametric vertical coordinate with bounds in a non-root group)
+    ex_cases = [] if os.environ.get('C11_ONLY', '') not in ('', 'fields', 'examples') else [
+        {"example": 1, "chain": ["g1", "g2", "g3"], "k": 2, "r0": 1, "seed": 520715}]
+    for _ in range(0 if os.environ.get('C11_ONLY', '') not in ('', 'fields', 'examples') else 16 if quick else 100):
         ex_cases.append(example_case(rng))
     rows, crashed = run_family("fields", cases, scratch, nworkers=14)
     for rc, err in crashed:
